@@ -11,7 +11,10 @@ package main
 import (
 	"fmt"
 	"regexp"
+	"sort"
+	"strconv"
 	"strings"
+	"time"
 
 	"simrt"
 )
@@ -25,6 +28,90 @@ var c13Pools = map[string][]string{
 
 var c13PoolNames = []string{"numbers", "names", "dates", "text"}
 
+// integers beyond 2^53 (where float64 stops telling neighbours apart) next to other spellings of the same magnitudes
+var c13BigNums = []string{"-9007199254740993", "-9007199254740992", "-9007199254740992.0", "9007199254740993", "9007199254740992", "9007199254740992.0",
+	"9.007199254740992e15", "9223372036854775807", "9223372036854775808", "-9223372036854775808", "18446744073709551616", "1e308", "-1e308", "1e309", "123456789012345678901234567890"}
+
+var c13Clusters = [][]string{
+	{"-9007199254740993", "-9007199254740992", "-9007199254740992.0", "-9.007199254740992e15"},
+	{"9007199254740993", "9007199254740992", "9007199254740992.0", "9.007199254740992e15"},
+	{"9223372036854775807", "9223372036854775808", "9223372036854775806", "9.223372036854775807e18"},
+	{"18446744073709551615", "18446744073709551616", "1.8446744073709551615e19"},
+	{"-9223372036854775808", "-9223372036854775809", "-9.223372036854775808e18"},
+	{"1", "1.0", "01", "1e0", "+1"},
+	{"-0", "0", "0.0", "+0", "-0.0"},
+}
+
+// "clean" families: keys whose order under a sort mode is not in doubt, so that what the mode MEANS can be checked too
+var c13Clean = map[string][]string{
+	"ints":     {"-50", "-7", "0", "3", "9", "10", "11", "42", "100", "101", "999", "1000", "2500", "12345"},
+	"decimals": {"-2.5", "-0.5", "0.25", "1.5", "2", "10.75", "100.125", "99.5"},
+	"weekdays": {"Monday", "Tuesday", "Wednesday", "Thursday", "Friday", "Saturday"},
+	"wkabbr":   {"mon", "tue", "wed", "thu", "fri", "sat"},
+	"months":   {"January", "February", "March", "April", "May", "June", "July", "August", "September", "October", "November", "December"},
+	"monabbr":  {"Jan", "Feb", "Mar", "Apr", "May", "Jun", "Jul", "Aug", "Sep", "Oct", "Nov", "Dec"},
+	"iso":      {"2019-12-31", "2020-01-01", "2020-01-02", "2020-02-01", "2020-10-05", "2021-01-01", "2021-03-04", "2020-11-30"},
+	"us":       {"12/31/2019", "01/01/2020", "01/02/2020", "02/01/2020", "10/05/2020", "01/01/2021", "03/04/2021", "11/30/2020"},
+	"rfc3339":  {"2020-01-01T00:00:00Z", "2020-01-01T00:00:01Z", "2020-01-01T10:00:00Z", "2020-01-02T03:04:05Z", "2019-12-31T23:59:59Z", "2020-10-10T10:10:10Z"},
+	"words":    {"alpha", "Beta", "gamma", "delta", "Echo", "zulu", "_x", "~y", "Alpha", "beta"},
+}
+
+var c13CleanLayout = map[string]string{"iso": "2006-01-02", "us": "01/02/2006", "rfc3339": time.RFC3339}
+
+// which families a mode's meaning is decided for
+var c13CleanModes = map[string][]string{
+	"text":       {"ints", "decimals", "weekdays", "months", "iso", "us", "words", "monabbr"},
+	"numeric":    {"ints", "decimals"},
+	"contextual": {"weekdays", "wkabbr", "months", "monabbr"},
+	"date":       {"iso", "us", "rfc3339"},
+	"value":      {"ints", "words", "iso", "weekdays"},
+}
+
+// c13Expected orders keys as the sort mode is documented to; counts are needed for `value` (must be distinct).
+func c13Expected(keys []string, counts map[string]int, family, mode, mod string) []string {
+	out := append([]string{}, keys...)
+	rank := func(k string) float64 {
+		switch mode {
+		case "numeric":
+			v, err := strconv.ParseFloat(k, 64)
+			if err != nil {
+				panic(err)
+			}
+			return v
+		case "contextual":
+			for i, n := range c13Clean[family] {
+				if n == k {
+					return float64(i)
+				}
+			}
+			panic("not in family: " + k)
+		case "date":
+			tm, err := time.Parse(c13CleanLayout[family], k)
+			if err != nil {
+				panic(err)
+			}
+			return float64(tm.Unix())
+		case "value":
+			return -float64(counts[k]) // larger totals first
+		}
+		return 0
+	}
+	sort.SliceStable(out, func(i, j int) bool {
+		if mode == "text" {
+			return out[i] < out[j]
+		}
+		return rank(out[i]) < rank(out[j])
+	})
+	desc := mod == ":desc" || mod == ":reverse"
+	if mode == "value" {
+		desc = mod == ":asc" || mod == ":reverse"
+	}
+	if desc {
+		out = c13Reverse(out)
+	}
+	return out
+}
+
 type c13Scenario struct {
 	Cmd    string // histo, table, bars
 	Sort   string // base sort name
@@ -34,6 +121,10 @@ type c13Scenario struct {
 	Cols   []string // table: column keys
 	Pool   string
 	TopN   int // histo -n (0: show everything)
+	// clean scenarios: rows and columns have their own family, sort mode and modifier
+	Clean            bool
+	RowFam, ColFam   string
+	ColSort, ColMod  string
 }
 
 func c13Gen(t *simrt.Tape) *c13Scenario {
@@ -41,6 +132,41 @@ func c13Gen(t *simrt.Tape) *c13Scenario {
 	sc.Cmd = []string{"histo", "histo", "table", "bars", "heatmap", "spark", "bars2", "histo-large"}[t.W(8)]
 	sc.Sort = []string{"text", "numeric", "contextual", "date", "value"}[t.W(5)]
 	sc.Mod = []string{"", "", ":asc", ":desc", ":reverse"}[t.W(5)]
+	if sc.Cmd != "histo-large" && sc.Cmd != "bars2" && t.WBool(1, 3) {
+		// a clean scenario: the meaning of the mode is decided, rows and columns independently
+		sc.Clean = true
+		fams := c13CleanModes[sc.Sort]
+		sc.RowFam = fams[t.W(len(fams))]
+		sc.Pool = "clean:" + sc.RowFam
+		pickN := func(fam string, n int) []string {
+			src := append([]string{}, c13Clean[fam]...)
+			for i := len(src) - 1; i > 0; i-- {
+				j := t.W(i + 1)
+				src[i], src[j] = src[j], src[i]
+			}
+			if n > len(src) {
+				n = len(src)
+			}
+			return src[:n]
+		}
+		sc.Keys = pickN(sc.RowFam, t.WRange(2, 8))
+		// distinct counts (a permutation of 1..n): `value` has no ties to break
+		for i := range sc.Keys {
+			sc.Counts = append(sc.Counts, i+1)
+		}
+		for i := len(sc.Counts) - 1; i > 0; i-- {
+			j := t.W(i + 1)
+			sc.Counts[i], sc.Counts[j] = sc.Counts[j], sc.Counts[i]
+		}
+		if sc.Cmd == "table" || sc.Cmd == "heatmap" || sc.Cmd == "spark" {
+			sc.ColSort = []string{"text", "numeric", "contextual", "date"}[t.W(4)]
+			sc.ColMod = []string{"", "", ":asc", ":desc", ":reverse"}[t.W(5)]
+			cf := c13CleanModes[sc.ColSort]
+			sc.ColFam = cf[t.W(len(cf))]
+			sc.Cols = pickN(sc.ColFam, t.WRange(2, 5))
+		}
+		return sc
+	}
 	// the pool follows the sort mode most of the time, so that the comparators see what they are made for
 	switch {
 	case t.WBool(1, 4):
@@ -55,6 +181,16 @@ func c13Gen(t *simrt.Tape) *c13Scenario {
 		sc.Pool = "text"
 	}
 	pool := append([]string{}, c13Pools[sc.Pool]...)
+	var cluster []string
+	if sc.Pool == "numbers" && t.WBool(1, 3) {
+		// one or two whole clusters of spellings around a magnitude where integer and floating-point comparison part
+		// ways, plus a few other numbers: a comparator that mixes the two is not an order there
+		cluster = append(cluster, c13Clusters[t.W(len(c13Clusters))]...)
+		if t.WBool(1, 3) {
+			cluster = append(cluster, c13Clusters[t.W(len(c13Clusters))]...)
+		}
+		pool = append(pool, c13BigNums...)
+	}
 	if t.WBool(1, 5) {
 		// mixture of two pools
 		pool = append(pool, c13Pools[c13PoolNames[t.W(4)]]...)
@@ -94,6 +230,18 @@ func c13Gen(t *simrt.Tape) *c13Scenario {
 		return sc
 	}
 	sc.Keys = pick(t.WRange(2, 8))
+	if len(cluster) > 0 {
+		have := map[string]bool{}
+		var ks []string
+		for _, k := range append(cluster, sc.Keys...) {
+			if !have[k] && len(ks) < 10 {
+				have[k] = true
+				ks = append(ks, k)
+			}
+		}
+		sc.Keys = ks
+		sc.Pool = "numbers+cluster"
+	}
 	for range sc.Keys {
 		sc.Counts = append(sc.Counts, 1+t.W(3))
 	}
@@ -154,7 +302,11 @@ func (sc *c13Scenario) scenario(sortArg string, t *simrt.Tape, shuffle []int) *c
 	case "table", "heatmap", "spark":
 		out.Regex = `^([^\t]*)\t([^\t]*)$`
 		out.Tpls = []c3Tpl{{{Grp: 1}}, {{Grp: 2}}}
-		out.Flags = append(common, sc.Cmd, "--num", "1000", "--cols", "1000", "--sort-rows", sortArg, "--sort-cols", sortArg)
+		colArg := sortArg
+		if sc.Clean {
+			colArg = sc.ColSort + sc.ColMod
+		}
+		out.Flags = append(common, sc.Cmd, "--num", "1000", "--cols", "1000", "--sort-rows", sortArg, "--sort-cols", colArg)
 		if sc.Cmd == "spark" {
 			out.Flags = append(out.Flags, "--notruncate")
 		}
@@ -281,6 +433,12 @@ func init() {
 			}
 		}
 		desc := map[string]any{"cmd": sc.Cmd, "sort": sortArg, "pool": sc.Pool, "keys": sc.Keys, "counts": sc.Counts, "cols": sc.Cols}
+		if sc.Clean {
+			desc["clean"] = true
+			if len(sc.Cols) > 0 {
+				desc["sort_cols"], desc["col_family"] = sc.ColSort+sc.ColMod, sc.ColFam
+			}
+		}
 		rc.Sample = desc
 		nLines := len(sc.lines())
 		type run struct {
@@ -351,8 +509,35 @@ func init() {
 				break
 			}
 		}
+		// what the mode means, for keys whose order under it is not in doubt
+		if sc.Clean && len(rc.Viol) == 0 {
+			counts := map[string]int{}
+			for i, k := range sc.Keys {
+				counts[k] = sc.Counts[i]
+			}
+			wantRows := c13Expected(sc.Keys, counts, sc.RowFam, sc.Sort, sc.Mod)
+			if strings.Join(wantRows, "\x00") != strings.Join(base.rows, "\x00") {
+				rc.Violate("order-meaning", "cmd=%s --sort(-rows) %s over %s keys: rows are shown as %q; %s order is %q\nvariant: %s\nscenario: %v", sc.Cmd, sortArg, sc.RowFam, base.rows, sc.Sort, wantRows, base.v, desc)
+			}
+			if sc.Cmd == "table" && len(rc.Viol) == 0 {
+				var used []string
+				seen := map[string]bool{}
+				for _, l := range sc.lines() {
+					c := strings.SplitN(l.Raw, "\t", 2)[0]
+					if !seen[c] {
+						seen[c] = true
+						used = append(used, c)
+					}
+				}
+				wantCols := c13Expected(used, nil, sc.ColFam, sc.ColSort, sc.ColMod)
+				if strings.Join(wantCols, "\x00") != strings.Join(base.cols, "\x00") {
+					rc.Violate("order-meaning", "cmd=%s --sort-cols %s over %s keys: columns are shown as %q; %s order is %q\nvariant: %s\nscenario: %v", sc.Cmd, sc.ColSort+sc.ColMod, sc.ColFam, base.cols, sc.ColSort, wantCols, base.v, desc)
+				}
+			}
+			rc.Probes["clean-scenarios"]++
+		}
 		// relations between spellings, on the parameters of variant 0
-		if len(rc.Viol) == 0 && sc.TopN == 0 { // with -n the reversed sort shows the other end, not a mirror
+		if len(rc.Viol) == 0 && sc.TopN == 0 && !sc.Clean { // with -n the reversed sort shows the other end, not a mirror
 			rev := sc.Sort + ":reverse"
 			same := ""
 			switch {
